@@ -32,6 +32,8 @@
 (*   nameCache     per link, residue-NAME combinations for which the link atoms were not   *)
 (*                 found are remembered and skipped (same-named residues can differ by a   *)
 (*                 residue-level attribute: seed3-C13-1)                                   *)
+(*   replaceVisible  values a link replaces are mirrored into the residue fragments, so a    *)
+(*                 later link selecting on that attribute sees them (seed5-C13-2)          *)
 (*   dfsTreeFrag   fragments are the components over depth-first TREE edges only  (F31, repaired) *)
 (*   fragIdOrder   block-copy correspondences are stored in merge order but looked up by an  *)
 (*                 id assigned in component-iteration order                       (F32, repaired) *)
@@ -132,7 +134,7 @@ AddBlock ==
         ELSE LET \* vermouth merge_molecule: new residue ids follow the residue id of the last atom; the very first block of a regular
                  \* node is set to the node's residue id, of a from_itp node it keeps the block's ids
                  roff == IF nat = 0 THEN (IF isFrag THEN 0 ELSE Resid(case, p) - 1) ELSE M.atoms[nat].resid
-                 new == [a \in DOMAIN b.atoms |-> [resid |-> b.atoms[a].res + roff, rn |-> b.atoms[a].rn, an |-> b.atoms[a].an, ty |-> b.atoms[a].ty, tag |-> s.bx[nm].tag]]
+                 new == [a \in DOMAIN b.atoms |-> [resid |-> b.atoms[a].res + roff, rn |-> b.atoms[a].rn, an |-> b.atoms[a].an, ty |-> b.atoms[a].ty, ty0 |-> b.atoms[a].ty, tag |-> s.bx[nm].tag]]
                  atoms2 == M.atoms \o new
                  range == (nat + 1)..(nat + Len(b.atoms))
                  M2 == [M EXCEPT !.atoms = atoms2,
